@@ -597,6 +597,14 @@ theorem C08_weight_input (ctx : List Event) (x x' : Pub) (hx : x.ok) (hx' : x'.o
     x = x' ∧ A = A' ∧ lrs = lrs' ∧ a1 = a1' ∧ b = b' ∧ r1 = r1' ∧ s1 = s1' ∧ d1 = d1' :=
   beforeWeight_inj_data ctx x x' hx hx' A A' lrs lrs' a1 b a1' b' r1 s1 r1' s1' d1 d1' hd h
 
+open Model.Transcript in
+/-- **C08 (the weight generator's input).** The weight transcript carries one digest per member, in batch order, and
+    determines every one of them; a digest has `8 · weightDigestBytes = 64` bits, the width the correspondence check
+    measures at the merlin boundary (bits of the weight generator's history that move with one member's responses). -/
+theorem C08_weight_transcript (ds ds' : List Bytes) (h : weightEvents ds = weightEvents ds') :
+    ds = ds' ∧ 8 * weightDigestBytes = 64 :=
+  ⟨weightEvents_inj ds ds' h, rfl⟩
+
 /-- **C08 (cancellation over any number of members).** With `W r` the vector of the `k` members' factors on run `r`:
     a fixed non-zero vector of defects annihilated by the factors on *every* run exists if and only if the factor
     vectors do not span `F^k`. (The correspondence check reads the factor vectors of `k+3` runs from the free-module
@@ -626,6 +634,20 @@ open Model.Gens in
 theorem C11_table_positions (bits cap i : ℕ) (hi : i < cap * bits) :
     (tableOrder bits cap)[2 * i]? = (aggIter .G bits cap)[i]? ∧ (tableOrder bits cap)[2 * i + 1]? = (aggIter .H bits cap)[i]? :=
   GensThm.interleave_get _ _ (by rw [GensThm.aggIter_length, GensThm.aggIter_length]) i (by rw [GensThm.aggIter_length]; exact hi)
+
+open Model.Gens in
+/-- **C11 (the public generator iterators).** The iterator *as coded* (state `(party_idx, gen_idx)`, `Model.Gens.It`),
+    started afresh, yields on its `k`-th call the `k`-th element of the party-major list — generator `k % n` of party
+    `k / n` — and `None` from call `m·n` on, for ever; `size_hint` is exact at every reachable state; `nth(j)` after
+    `k` items is item `k + j`; and that list is `aggIter` (of which the table theorems speak). -/
+theorem C11_iterator (kind : Kind) (n m : ℕ) (hn : 0 < n) (k j : ℕ) :
+    ((GensThm.It.after k (It.start n m)).next.2 = if k < m * n then some (k / n, k % n) else none) ∧
+    ((It.nth j (GensThm.It.after k (It.start n m))).2 =
+      if k + j < m * n then some ((k + j) / n, (k + j) % n) else none) ∧
+    (k ≤ m * n → (GensThm.It.after k (It.start n m)).sizeHint = m * n - k) ∧
+    (k < m * n → (aggIter kind n m)[k]? = some ⟨kind, k / n, k % n⟩) :=
+  ⟨GensThm.next_after n m hn k, GensThm.nth_after n m hn j k, GensThm.sizeHint_after n m hn k,
+   GensThm.aggIter_get kind n m k hn⟩
 
 open Model.Gens in
 theorem C11_table_length (bits cap : ℕ) : (tableOrder bits cap).length = 2 * bits * cap := GensThm.tableOrder_length bits cap
